@@ -1,6 +1,6 @@
 """C14 — replacement, conversion, patch, derive and map-type settings apply everywhere (syntactic obligations)."""
 import re
-from lib import (norm_arm, walk, nodes, ends, src, psrc, outcome, contains_node, pat_top_variants, short, calls_in, block_last,
+from lib import (Canon, option_branch, norm_arm, walk, nodes, ends, src, psrc, outcome, contains_node, pat_top_variants, short, calls_in, block_last,
                  strip_refs, guards, gtext, top_stmts, templates_in)
 import emit
 import tmplparse as tp
@@ -31,54 +31,53 @@ def run(facts, rep, tier):
                 reps.append((h, n))
     if rep.floor("C14.W1", "replacement lookup", len(reps), 1):
         h, look = reps[0]
-        key = src(look["args"][0]).lstrip("&")
-        lets = {n["pat"]["name"]: n for n, _ in nodes(h["body"], "let") if n["pat"].get("k") == "bind"}
-        kinit = src(lets[key]["init"]) if key in lets else ""
-        ok = re.match(r"sanitize\(\w+, Case::Pascal\)", kinit) is not None
-        rep.ob("C14.W1", "lookup-key-sanitised-like-type-names", ok, "replacement key = %s" % kinit if ok else "the replacement lookup key `%s = %s` is not the Pascal-sanitised definition name" % (key, kinit), look.get("sp"))
+        cn = Canon(c, h, 5)
+        kinit = cn.r(look["args"][0])
+        ok = re.fullmatch(r"sanitize\(\S+, Case::Pascal\)", kinit) is not None
+        rep.ob("C14.W1", "lookup-key-sanitised-like-type-names", ok, "replacement key = %s" % kinit if ok else "the replacement lookup key `%s` is not the Pascal-sanitised definition name" % kinit, look.get("sp"))
         gtn = [x for x in c.user_fns() if x["fn"].endswith("util::get_type_name")]
         if gtn:
-            rep.ob("C14.W1", "type-names-sanitised-pascal", "Some(sanitize(&name, Case::Pascal))" in src(gtn[0]["body"]), "get_type_name ends in sanitize(&name, Case::Pascal)")
-        # the match on the lookup result
-        bound = None
-        for nme, n in lets.items():
-            if contains_node(n.get("init") or {}, look):
-                bound = nme
-        mm = [n for n, _ in nodes(h["body"], "match") if n.get("src") == "normal" and src(n["scrut"]) == bound]
-        if rep.floor("C14.W1", "match on the lookup result", len(mm), 1):
-            arms = {}
-            for a in mm[0]["arms"]:
-                pk, g, b = norm_arm(a)
-                arms[pk] = a
-            some = arms.get("Some($0)")
-            none = arms.get("None")
-            if rep.floor("C14.W1", "Some/None arms", (1 if some else 0) + (1 if none else 0), 2):
-                cs = calls_in(some["body"])
-                conv = [x for x in cs if "::convert_" in x or x.endswith("id_for_schema") or x.endswith("assign_type")]
-                rep.ob("C14.W1", "hit-converts-nothing", not conv, "no conversion on the replacement branch" if not conv else "the replaced definition is still converted: %s" % conv, some.get("sp"))
-                b = [x["name"] for x, _ in walk(some["pat"]) if x.get("k") == "bind"][0]
-                s = src(some["body"])
-                okn = ("TypeEntry::new_native(%s.replace_type.clone()" % b) in s
-                rep.ob("C14.W1", "hit-binds-native-replacement", okn, "entry = new_native(replacement.replace_type, impls)" if okn else "the replacement branch does not build the native entry from the configured type: %s" % s[:120], some.get("sp"))
-                ins = [n for n, _ in nodes(some["body"], "mcall") if n["name"] == "insert" and src(n["recv"]).endswith("id_to_entry")]
-                oki = bool(ins) and src(ins[0]["args"][0]) == "type_id"
-                rep.ob("C14.W1", "hit-uses-preassigned-id", oki, "id_to_entry.insert(type_id, native) at the id references already point to" if oki else "the native entry is not stored at the pre-assigned id")
-                rep.ob("C14.W1", "miss-converts", any(x.endswith("convert_ref_type") for x in calls_in(none["body"])), "no replacement => the definition is converted")
+            g = Canon(c, gtn[0], 4).r(gtn[0]["body"])
+            rep.ob("C14.W1", "type-names-sanitised-pascal", g.startswith("Some(sanitize(") and g.endswith(", Case::Pascal))"), "get_type_name ends in sanitize(.., Case::Pascal)")
+        # the branch on the lookup result (if-let or match, directly or through a let)
+        ob = None
+        for n, _ in walk(h["body"]):
+            o = option_branch(n)
+            if o is None:
+                continue
+            sc = o[0]
+            if contains_node(sc, look):
+                ob = o
+            else:
+                scs = strip_refs(sc)
+                if scs.get("k") == "path" and scs.get("res") == "local":
+                    from lib import scope_binding
+                    bb = scope_binding(h, cn.ancestors(scs), scs["path"], scs)
+                    if bb and bb[0] == "let" and contains_node(bb[1].get("init") or {}, look):
+                        ob = o
+        if rep.floor("C14.W1", "branch on the lookup result", 1 if ob else 0, 1):
+            sc, spat, some_body, none_body = ob
+            cs = calls_in(some_body)
+            conv = [x for x in cs if "::convert_" in x or x.endswith("id_for_schema") or x.endswith("assign_type")]
+            rep.ob("C14.W1", "hit-converts-nothing", not conv, "no conversion on the replacement branch" if not conv else "the replaced definition is still converted: %s" % conv, some_body.get("sp"))
+            ins = [n for n, _ in nodes(some_body, "mcall") if n["name"] == "insert" and cn.r(n["recv"]).endswith(".id_to_entry")]
+            okn = oki = False
+            if ins:
+                key = cn.r(ins[0]["args"][0])
+                val = cn.r(ins[0]["args"][1])
+                okn = bool(re.search(r"TypeEntryDetails::Native\(TypeEntryNative\{type_name: .*settings\.replace\.get\(.*~Some\.replace_type\.to_string\(\)", val)) or bool(re.search(r"new_native\(.*~Some\.replace_type", val))
+                oki = bool(re.match(r"TypeId\(\(self\.next_id Add .*enumerate\(\)", key))
+            rep.ob("C14.W1", "hit-binds-native-replacement", okn, "entry = native type built from the replacement's replace_type" if okn else "the replacement branch does not build the native entry from the configured type", some_body.get("sp"))
+            rep.ob("C14.W1", "hit-uses-preassigned-id", oki, "stored at the id pre-assigned to this definition (base + index)" if oki else "the native entry is not stored at the pre-assigned id")
+            rep.ob("C14.W1", "miss-converts", any(x.endswith("convert_ref_type") for x in calls_in(none_body)), "no replacement => the definition is converted")
 
     # ------------------------------------------------------------ W2 patch
     patchers = [h for h in c.user_fns() if any(src(n["recv"]).endswith("settings.patch") for n, _ in nodes(h["body"], "mcall") if n["name"] == "get")]
     if rep.floor("C14.W2", "patch lookup fn", len(patchers), 1):
         ph = patchers[0]
-        m = [n for n, _ in nodes(ph["body"], "match") if n.get("src") == "normal"]
-        ok = False
-        if m:
-            arms = {norm_arm(a)[0]: a for a in m[0]["arms"]}
-            none, some = arms.get("None"), arms.get("Some($0)")
-            if none and some:
-                sn = src(block_last(none["body"]))
-                ss = src(some["body"])
-                ok = sn.startswith("(type_name, ") and "patch.rename.clone().unwrap_or(type_name)" in ss and "patch.derives.iter().cloned().collect()" in ss and src(block_last(some["body"])) == "(name, derives)"
-        rep.ob("C14.W2", "patch-lookup-semantics", ok, "no patch => (name, {}); patch => (rename or name, patch derives)" if ok else "type_patch does not return (rename-or-name, derives)", c.fns[ph["fn"]].get("sp"))
+        g = Canon(c, ph, 5).r(ph["body"])
+        ok = bool(re.fullmatch(r"match \$&TypeSpace\.settings\.patch\.get\((\$\w+)\) \{ None => \(\1, Default>::default\(\)\) \| Some\(_\) => \(\S*~Some\.rename\.unwrap_or\(\1\), \S*~Some\.derives\.iter\(\)\.cloned\(\)\.collect\(\)\) \}", g))
+        rep.ob("C14.W2", "patch-lookup-semantics", ok, "no patch => (name, {}); patch => (rename or name, patch derives)" if ok else "type_patch is `%s`" % g[:200], c.fns[ph["fn"]].get("sp"))
         pfn = ph["fn"]
         sites = []
         for h in c.user_fns():
@@ -88,18 +87,21 @@ def run(facts, rep, tier):
                     if par_ctor:
                         sites.append((h, n))
         rep.floor("C14.W2", "constructor sites of named entries", len(sites), 6)
+        from lib import scope_binding
         for h, st in sites:
-            lets = [n for n, _ in nodes(h["body"], "let") if n.get("init") is not None and n["init"].get("k") in ("call", "mcall") and n["init"].get("fn") == pfn]
-            fields = {k: src(v) for k, v in st["fields"]}
-            ok = False
-            detail = "no call to the patch lookup in %s" % h["fn"]
-            if lets:
-                b = [x["name"] for x, _ in walk(lets[0]["pat"]) if x.get("k") == "bind"]
-                te = [n for n, _ in nodes(h["body"], "struct") if n["path"].endswith("type_entry::TypeEntry")]
-                tef = {k: src(v) for k, v in te[0]["fields"]} if te else {}
-                ok = len(b) == 2 and fields.get("name") == b[0] and tef.get("extra_derives") == b[1]
-                detail = "name = %s, extra_derives = %s from %s(..)" % (fields.get("name"), tef.get("extra_derives"), short(pfn))
-            rep.ob("C14.W2", "patched:%s" % h["fn"], ok, detail if ok else "named entry built in %s does not take name/derives from the patch lookup (%s)" % (h["fn"], detail), st.get("sp"))
+            cn = Canon(c, h, 3)
+            fields = {k: v for k, v in st["fields"]}
+            te = [n for n, _ in nodes(h["body"], "struct") if n["path"].endswith("type_entry::TypeEntry") and "rest" not in n]
+            tef = {k: v for k, v in te[0]["fields"]} if te else {}
+
+            def from_patch(e, idx):
+                e = strip_refs(e) if isinstance(e, dict) else {}
+                if e.get("k") == "path" and e.get("res") == "local":
+                    bb = scope_binding(h, cn.ancestors(e), e["path"], e)
+                    return bool(bb) and bb[0] == "let" and bb[2] == idx and isinstance(bb[1].get("init"), dict) and bb[1]["init"].get("fn") == pfn
+                return False
+            ok = from_patch(fields.get("name"), 0) and from_patch(tef.get("extra_derives"), 1)
+            rep.ob("C14.W2", "patched:%s" % h["fn"], ok, "name and extra_derives are the two results of the patch lookup" if ok else "named entry built in %s does not take name/derives from the patch lookup" % h["fn"], st.get("sp"))
 
     # ------------------------------------------------------------ T1 derives / T2 names / T3 builder
     ems = emit.find_emitters(facts, c)
@@ -110,19 +112,16 @@ def run(facts, rep, tier):
             flat = tp.squash(tp.flat(t.tt))
             has = "#[derive( #( #derives ), * )]" in tp.flat(t.tt) or re.search(r"derive\s*\(\s*#\(\s*#derives\s*\)\s*,\s*\*\s*\)", tp.flat(t.tt)) is not None
             rep.ob("C14.T1", "derive-list-in-item:%s" % kind, has, "item template carries #[derive(#(#derives),*)]" if has else "the %s item template does not interpolate the assembled derive list" % kind, t.sp)
-            lets = [n for n, _ in nodes(em.h["body"], "let") if n["pat"].get("k") == "bind" and n["pat"]["name"] == "derives"]
-            ok = False
-            if lets and lets[0]["init"].get("k") == "call":
-                asm = lets[0]["init"]["fn"]
-                a = [src(x) for x in lets[0]["init"]["args"]]
-                ok = a == ["derive_set", "&self.extra_derives", "&type_space.settings.extra_derives"]
-                detail = "%s(%s)" % (short(asm), ", ".join(a))
-            else:
-                detail = "derives is not bound from the derive assembler"
-            rep.ob("C14.T1", "derives-assembled:%s" % kind, ok, detail, lets[0].get("sp") if lets else None)
+            hc = em.hole_canon()
+            dprov = hc.get(em.actual.get("derives", "derives"), "")
+            ok = bool(re.fullmatch(r"strings_to_derives\(\$BTreeSet<&str>, self\.extra_derives, \$&TypeSpace\.settings\.extra_derives\)", dprov))
+            m_asm = [n for n, _ in nodes(em.h["body"], "call") if n.get("fn", "").endswith("strings_to_derives")]
+            if m_asm:
+                asm = m_asm[0]["fn"]
+            rep.ob("C14.T1", "derives-assembled:%s" % kind, ok, "derives = %s" % dprov if ok else "the derive list is `%s`, not the assembler over (base set, entry derives, settings derives)" % dprov[:120], t.sp)
             # T2: emitter and renderer format the same field
-            s = src(em.h["body"])
-            rep.ob("C14.T2", "item-name-is-entry-name:%s" % kind, 'let type_name = format_ident!(name)' in s, "type_name = format_ident!(\"{}\", name) with name destructured from the entry")
+            nprov = hc.get(em.actual.get("type_name", "type_name"), "")
+            rep.ob("C14.T2", "item-name-is-entry-name:%s" % kind, bool(re.fullmatch(r"format_ident!\(\S*~TypeEntry(Enum|Struct|Newtype)\.name\)", nprov)) and it["name"] == "#type_name", "item is declared as format_ident!(<entry>.name): %s" % nprov)
             # T3
             for tt in em.templates:
                 for g in tt.guards:
@@ -137,13 +136,14 @@ def run(facts, rep, tier):
     ti = [h for h in c.user_fns() if ends(h["fn"], "TypeEntry::type_ident")]
     if ti:
         m = [n for n, _ in nodes(ti[0]["body"], "match") if n.get("src") == "normal" and "TypeEntryDetails" in c.ty(n.get("scty"))][0]
+        cnr = Canon(c, ti[0], 5)
         for arm in m["arms"]:
             tops = [t.split("::")[-1] for t in pat_top_variants(arm["pat"])]
             if "Struct" in tops:
-                binds = {f[0]: psrc(f[1]) for x, _ in walk(arm["pat"]) if x.get("k") == "struct" for f in x["fields"]}
-                s = src(arm["body"])
-                ok = set(tops) == {"Enum", "Struct", "Newtype"} and binds.get("name") == "name" and "format_ident!(name)" in s
-                rep.ob("C14.T2", "renderer-uses-entry-name", ok, "type_ident renders Enum|Struct|Newtype by their `name` field", arm.get("sp"))
+                fis = [cnr.r(x) for x, _ in walk(arm["body"]) if x.get("k") == "macro" and x["name"] == "format_ident"]
+                named = [x for x in fis if re.fullmatch(r"format_ident!\(self\.details~(Enum|Struct|Newtype)~TypeEntry(Enum|Struct|Newtype)\.name\)", x)]
+                ok = set(tops) == {"Enum", "Struct", "Newtype"} and len(named) >= 1 and all(x in named or "Option<String>" in x for x in fis)
+                rep.ob("C14.T2", "renderer-uses-entry-name", ok, "type_ident renders Enum|Struct|Newtype by their `name` field" if ok else "the renderer formats %s" % fis, arm.get("sp"))
 
     # ------------------------------------------------------------ D1 map type
     map_sites = []
@@ -155,19 +155,19 @@ def run(facts, rep, tier):
                 map_sites.append((h, n, anc))
     fns = sorted({h["fn"] for h, _, _ in map_sites})
     rep.floor("C14.D1", "readers of settings.map_type", len(fns), 2)
-    EXC = "((key_ty.details Eq TypeEntryDetails::String) And (value_ty.details Eq TypeEntryDetails::JsonValue))"
+    EXC = r"\(\(\S*\.id_to_entry\.get\(.*?~Map\.0\)\.expect\(\"[^\"]*\"\)\.details Eq TypeEntryDetails::String\) And \(\S*\.id_to_entry\.get\(.*?~Map\.1\)\.expect\(\"[^\"]*\"\)\.details Eq TypeEntryDetails::JsonValue\)\)"
     for h, n, anc in map_sites:
+        cnm = Canon(c, h, 5)
         arms = [g for g in guards(anc, n) if g[0] == "arm" and "TypeEntryDetails::Map" in g[1]]
         rep.ob("C14.D1", "map-arm-reads-setting:%s" % h["fn"], bool(arms), "read inside the Map arm `%s`" % (arms[0][1][:60] if arms else "?"), None)
-        # the exception condition in the same arm
         arm_body = None
         for a in reversed(anc):
             if a.get("k") is None and "pat" in a and "TypeEntryDetails::Map" in psrc(a["pat"]):
                 arm_body = a["body"]
                 break
-        ifs = [x for x, _ in nodes(arm_body or {}, "if") if src(x["cond"]) == EXC]
-        ok = bool(ifs) and "serde_json" in src(ifs[0]["then"]) + " ".join((facts.template_at(q["sp"]) or {}).get("text", "") for q, _ in walk(ifs[0]["then"]) if q.get("k") == "macro")
-        ok2 = bool(ifs) and ifs[0].get("else") is not None and "map_to_use" in src(ifs[0]["else"])
+        ifs = [x for x, _ in nodes(arm_body or {}, "if") if re.fullmatch(EXC, cnm.r(x["cond"]))]
+        ok = bool(ifs) and "serde_json" in " ".join((facts.template_at(q["sp"]) or {}).get("text", "") for q, _ in walk(ifs[0]["then"]) if q.get("k") == "macro")
+        ok2 = bool(ifs) and ifs[0].get("else") is not None and any("settings.map_type" in cnm.r(x) for x, _ in walk(ifs[0]["else"]) if x.get("k") == "path" and x.get("res") == "local")
         rep.ob("C14.D1", "map-exception-shared:%s" % h["fn"], bool(ok and ok2), "String->JsonValue => serde_json::Map, otherwise the configured map type" if ok and ok2 else "the Map arm in %s does not use the configured map type except for String->JsonValue" % h["fn"], (ifs[0] if ifs else {}).get("sp"))
 
     # ------------------------------------------------------------ W3 conversions first
@@ -180,10 +180,11 @@ def run(facts, rep, tier):
             for a in m[0]["arms"]:
                 if "Schema::Object" in psrc(a["pat"]):
                     body = block_last(a["body"])
-                    if body.get("k") == "if" and body["cond"].get("k") == "letx" and "cache.lookup(" in src(body["cond"]["init"]):
-                        hit = src(block_last(body["then"]))
-                        miss = calls_in(body.get("else") or {})
-                        ok = hit.startswith("Ok((") and any(x.endswith("convert_schema_object") for x in miss) and not any(x.endswith("convert_schema_object") for x in calls_in(body["then"]))
+                    ob = option_branch(body)
+                    if ob is not None and any(x.get("k") == "mcall" and x["name"] == "lookup" and "SchemaCache" in x.get("fn", "") for x, _ in walk(ob[0])):
+                        hit = src(block_last(ob[2]))
+                        miss = calls_in(ob[3] or {})
+                        ok = hit.startswith("Ok((") and any(x.endswith("convert_schema_object") for x in miss) and not any(x.endswith("convert_schema_object") for x in calls_in(ob[2]))
         rep.ob("C14.W3", "cache-lookup-dominates-dispatch", ok, "`if let Some(entry) = self.cache.lookup(obj) { Ok(entry) } else { convert_schema_object }`" if ok else "the conversion cache is not consulted before the structural dispatcher", h.get("sp") or c.fns[h["fn"]].get("sp"))
     for meth in ("insert", "lookup"):
         hh = [h for h in c.user_fns() if h["fn"].endswith("SchemaCache::" + meth)]
@@ -193,5 +194,6 @@ def run(facts, rep, tier):
             rep.ob("C14.W3", "annotations-ignored:" + meth, ok, "%s strips metadata before comparing" % meth if ok else "SchemaCache::%s compares annotations" % meth)
     new = [h for h in c.user_fns() if ends(h["fn"], "TypeSpace::new")]
     if new:
-        s = src(new[0]["body"])
-        rep.ob("C14.W3", "conversions-loaded", "settings.convert.iter().for_each(" in s and "cache.insert(schema, type_name, impls)" in s, "TypeSpace::new loads every configured conversion into the cache")
+        s = Canon(c, new[0], 5).r(new[0]["body"])
+        ok = bool(re.search(r"\$&TypeSpaceSettings\.convert\.iter\(\)\.for_each\(\|\.\.\| \S+\.insert\(elem<\S+>~TypeSpaceConversion\.schema, elem<\S+>~TypeSpaceConversion\.type_name, elem<\S+>~TypeSpaceConversion\.impls\)\)", s))
+        rep.ob("C14.W3", "conversions-loaded", ok, "TypeSpace::new loads every configured conversion into the cache" if ok else "TypeSpace::new does not insert every configured conversion (schema, type_name, impls) into the cache")
